@@ -347,9 +347,11 @@ def make_handler(f, ctx, symmetric=True):
                 axes = [a for k, a in enumerate(x.axes) if k != axis[0]]
                 return Table(x.shape, axes, {k: red(v) for k, v in x.cells.items()})
             return NotImplemented
-        if d in ("np.full", "numpy.full"):
-            shp = interp.expr(e.args[0])
-            v = interp.expr(e.args[1])
+        if d in ("np.full", "numpy.full", "np.broadcast_to", "numpy.broadcast_to") and len(e.args) == 2:
+            # np.full(shape, array) and np.broadcast_to(array, shape): the array repeated along the new leading axes
+            a_shape, a_val = (e.args[0], e.args[1]) if d.endswith("full") else (e.args[1], e.args[0])
+            shp = interp.expr(a_shape)
+            v = interp.expr(a_val)
             lead = tuple(s for s in shp if isinstance(s, int))
             if isinstance(v, OV) and len(shp) == len(lead) + 2:
                 t = Table(lead, [f"I{k}" for k in range(len(lead))] + list(v.axes))
